@@ -85,6 +85,19 @@ def build_wsgi(spec, rec, trace):
         with lock:
             rec["calls"].append(call)
         trace.ev("app", "wsgi-call", path=environ.get("PATH_INFO"))
+        if shape == "stream":
+            # a large streamed response: every chunk handed to the server is logged, so that the amount the server has taken can be
+            # compared with what the client had accepted at any point of the trace
+            start_response(status, headers)
+            n, size = spec["nchunks"], spec["chunk"]
+
+            def stream():
+                total = 0
+                for k in range(n):
+                    total += size
+                    trace.ev("app", "wsgi-yield", total=total)
+                    yield bytes([65 + k % 26]) * size
+            return stream()
         if shape == "raise_before":
             raise RuntimeError("wsgi failure before start_response")
         if shape == "no_start":
